@@ -27,18 +27,24 @@ class C20(SCheck):
         if idx < len(combos):
             n = max(sizes[:2])
         ops = [gen.d_op("src")]
+        sparse = idx % 5 == 2
         per = 400
         for i in range(n):
             d = "src/d%03d" % (i // per)
             if i % per == 0:
                 ops.append(gen.d_op(d))
-            ops.append({"op": "file", "p": "%s/f%05d" % (d, i), "len": 1 + (i % 7), "runs": [[0, 1 + (i % 7), i + 1]]})
+            if sparse:
+                # a hole-only tail makes the file look sparse; with an extent map the block driver queues it extent by extent
+                ops.append({"op": "file", "p": "%s/f%05d" % (d, i), "len": 4096 + 65536 * (1 + i % 3), "runs": [[0, 4096, i + 1]]})
+            else:
+                ops.append({"op": "file", "p": "%s/f%05d" % (d, i), "len": 1 + (i % 7), "runs": [[0, 1 + (i % 7), i + 1]]})
         flags = {"r": True}
         if idx % 3 == 1:
             flags["fsync"] = True
         gen.swarm_flags(r, flags, allow=("no_perms", "no_timestamps", "reflink", "no_progress"), p=0.2)
         inv = gen.mk_inv(["src"], "dst", driver=driver, workers=workers, block_size=r.choice([4096, 1 << 20]), **flags)
-        return {"setup": ops, "steps": [{"inv": inv}], "nofile": 1024, "max_events": 40_000_000, "timeout_s": 600, "n": n}
+        kernel = {"fiemap": "emulate"} if (sparse or r.random() < 0.2) else {}
+        return {"setup": ops, "steps": [{"inv": inv}], "kernel": kernel, "nofile": 1024, "max_events": 40_000_000, "timeout_s": 600, "n": n}
 
     def gen_plans(self, r, case, k):
         plans = []
